@@ -472,6 +472,66 @@ def probe_output_before_exception(ctx):
             else:
                 ctx.cell('output-before-exception:' + expect)
 
+FLAG_CARRIERS = [
+    # (name, lines carrying "+IGNORE_EXCEPTION_DETAIL" [%s = the directive comment], scope)
+    ('block', ['>>> %s', '>>> quiet(1)'], 'block'),
+    ('block-after-code', ['>>> quiet(1)', '>>> %s'], 'block'),
+    ('inline-one-line', ['>>> quiet(1)  %s'], 'inline'),
+    ('inline-opening-line', ['>>> v = [  %s', '...     quiet(1)]'], 'inline'),
+    ('inline-closing-line', ['>>> v = [', '...     quiet(1)]  %s'], 'inline'),
+    ('inline-with-comment-line', ['>>> v = [  %s', '...     # a remark on a line of its own', '...     quiet(1)]'], 'inline'),
+    ('inline-after-comment-line', ['>>> v = [', '...     # a remark on a line of its own', '...     quiet(1)]  %s'], 'inline'),
+    ('inline-with-blank-line', ['>>> v = [  %s', '...', '...     quiet(1)]'], 'inline'),
+]
+
+
+def probe_flag_scope(ctx):
+    """how far +IGNORE_EXCEPTION_DETAIL / -ELLIPSIS reach: a directive comment behind code holds for that statement
+    only, one on a line of its own for the rest of the doctest.  A later raising statement whose traceback want has the
+    right type and the wrong message decides which of the two took place"""
+    from xdoctest import doctest_example
+    tail = ['>>> quiet(2)', '>>> raise ValueError("the real message")', 'Traceback (most recent call last):',
+            'ValueError: another message', '>>> quiet(3)']
+    for name, lines, scope in FLAG_CARRIERS:
+        for spelling in ('# xdoctest: +IGNORE_EXCEPTION_DETAIL', '# doctest: +IGNORE_EXCEPTION_DETAIL'):
+            L = [ln % spelling if '%s' in ln else ln for ln in lines] + tail
+            doc = '\n'.join(L)
+            ctx.evaluation()
+            ctx.nontrivial((doc, 'flag-scope'))
+            rec = harness.run_doctest(doctest_example.DocTest(doc), extra_ns=extra_ns())
+            got = 'raised' if rec.raised is not None else harness.outcome(rec.summary)
+            exp, exp_T = ('passed', [1, 2, 3]) if scope == 'block' else ('failed', [1, 2])
+            if got != exp or rec.T != exp_T:
+                ctx.violation('swallowed' if got == 'passed' else 'false-fail',
+                              'flag carrier %r (%s scope) before a raising statement whose want has the wrong message: expected '
+                              '%s with event log %r, observed %s, event log %r\n--- docstring ---\n%s' % (
+                                  name, scope, exp, exp_T, got, rec.T, doc), {'probe': 'flag-scope', 'doc': doc})
+            else:
+                ctx.cell('flag-scope:' + name)
+    # the inline flag on the raising statement itself (a call spread over lines, with a comment-only line inside)
+    for name, lines in (
+            ('on-raising-one-line', ['>>> raiser(ValueError, "the real message")  %s']),
+            ('on-raising-multi-line', ['>>> raiser(ValueError,  %s', '...        # a remark on a line of its own',
+                                       '...        "the real message")']),
+            ('on-raising-closing-line', ['>>> raiser(ValueError,', '...        # a remark on a line of its own',
+                                         '...        "the real message")  %s'])):
+        L = ['>>> quiet(1)'] + [ln % '# xdoctest: +IGNORE_EXCEPTION_DETAIL' if '%s' in ln else ln for ln in lines] + [
+            'Traceback (most recent call last):', 'ValueError: another message', '>>> quiet(3)',
+            '>>> raise KeyError("k")', 'Traceback (most recent call last):', 'KeyError: other']
+        doc = '\n'.join(L)
+        ctx.evaluation()
+        ctx.nontrivial((doc, 'flag-scope'))
+        rec = harness.run_doctest(doctest_example.DocTest(doc), extra_ns=extra_ns())
+        got = 'raised' if rec.raised is not None else harness.outcome(rec.summary)
+        # the first exception is accepted (flag on its own statement), the second is not (flag gone): fails there
+        if got != 'failed' or rec.T != [1, 3]:
+            ctx.violation('swallowed' if got == 'passed' else 'false-fail',
+                          'inline +IGNORE_EXCEPTION_DETAIL %s: the first exception must be accepted and the second (same '
+                          'shape, no flag) must fail: expected failed with event log [1, 3], observed %s, event log %r\n'
+                          '--- docstring ---\n%s' % (name, got, rec.T, doc), {'probe': 'flag-scope', 'doc': doc})
+        else:
+            ctx.cell('flag-scope:' + name)
+
 
 def required_cells(tier):
     cells = []
@@ -484,6 +544,8 @@ def required_cells(tier):
     cells += ['outcome-exception:' + n for n, _ in OUTCOME_RAISERS]
     cells += ['earlier-raise-fails-as-it-should', 'documented-exception-under-a-non-expression-passes',
               'earlier-raise-behind-a-directive', 'output-before-exception:failed', 'output-before-exception:passed']
+    cells += ['flag-scope:' + n for n, _, _ in FLAG_CARRIERS]
+    cells += ['flag-scope:on-raising-one-line', 'flag-scope:on-raising-multi-line', 'flag-scope:on-raising-closing-line']
     return cells
 
 
@@ -557,6 +619,8 @@ def run_shard(ctx):
         probe_earlier_raise(ctx)
     if ctx.shard == 3 % ctx.nshards:
         probe_output_before_exception(ctx)
+    if ctx.shard == 4 % ctx.nshards:
+        probe_flag_scope(ctx)
 
 
 def replay(case, ctx):
@@ -574,6 +638,9 @@ def replay(case, ctx):
         return
     if case.get('probe') == 'output-before-exception':
         probe_output_before_exception(ctx)
+        return
+    if case.get('probe') == 'flag-scope':
+        probe_flag_scope(ctx)
         return
     run_cell(ctx, case['kind'], case['msg'], case['pos'], case['want_form'], tuple(case['flags']), case['ctxno'],
              case['on_error'])
